@@ -395,6 +395,8 @@ class ExceptionInfo:
         type_str = exc_type.__qualname__
         type_mod = exc_type.__module__
         if type_mod not in ("__main__", "builtins"):
+            if not isinstance(type_mod, str):
+                type_mod = '<unknown>'  # as the traceback module prints it
             type_str = f'{type_mod}.{type_str}'
         val_str = _some_str(exc_value)
         tb_info = cls.tb_info_type.from_traceback(traceback)
@@ -592,6 +594,8 @@ def format_exception_only(etype, value):
     stype = etype.__qualname__
     smod = etype.__module__
     if smod not in ("__main__", "builtins"):
+        if not isinstance(smod, str):
+            smod = '<unknown>'  # as the traceback module prints it
         stype = smod + '.' + stype
 
     if not issubclass(etype, SyntaxError):
